@@ -389,6 +389,19 @@ def run_d11(tm, scratch):
     return out
 
 
+def run_gen(c, bp_chunked):
+    """the region generator as run_multiome_tagging calls it (no blacklist): regions and the bp_chunked jobs"""
+    try:
+        from singlecellmultiomics.bamProcessing.bamBinCounts import blacklisted_binning_contigs
+        contigs = [(n, l) for n, l in c['contigs']]
+        regions = [list(t) for t in blacklisted_binning_contigs(contig_length_resource=contigs, bin_size=c['bs'],
+                                                                fragment_size=c['f'], blacklist_path=None, contig_whitelist=None)]
+        jobs = [[list(t) for t in job] for job in bp_chunked([tuple(t) for t in regions], c['bp'])]
+        return {'regions': regions, 'jobs': jobs}
+    except BaseException as e:
+        return {'error': '%s: %s' % (type(e).__name__, e)}
+
+
 def handler(p):
     scratch = os.environ.get('SCMO_SCRATCH', '.')
     real_stdout = sys.stdout
@@ -407,11 +420,12 @@ def handler(p):
                 chunks.append([[list(t) for t in job] for job in bp_chunked([tuple(t) for t in c['tasks']], c['bp'])])
             except BaseException as e:
                 chunks.append({'error': '%s: %s' % (type(e).__name__, e)})
+        gens = [run_gen(c, bp_chunked) for c in p.get('gens', [])]
         libs = [run_lib(n, c, tm, tagging, scratch) for n, c in enumerate(p.get('libs', []))]
         d11 = run_d11(tm, scratch) if p.get('d11') else None
     finally:
         sys.stdout = real_stdout
-    return {'loops': loops, 'chunks': chunks, 'libs': libs, 'd11': d11}
+    return {'loops': loops, 'chunks': chunks, 'libs': libs, 'd11': d11, 'gens': gens}
 
 
 if __name__ == '__main__':
